@@ -43,10 +43,10 @@ def translate(repo: Path) -> str:
         fail(node, "chain must end with `else: raise ...`")
     rows = "; ".join(f"({lo}, {hi}, {w})" for lo, hi, w in bands)
     return (HEADER +
-            "From Coq Require Import ZArith List.\nFrom PyxelV Require Import Model.Adc.\n"
+            "From Coq Require Import ZArith List String.\nFrom PyxelV Require Import Model.Adc Model.AdcHist.\n"
             "Import ListNotations.\nOpen Scope Z_scope.\n"
             f"Definition src_dtype_chain : dtype_chain := [{rows}].\n"
-            + wrappers(repo))
+            + module_state(repo) + wrappers(repo))
 
 
 # ------------------------------------------------------------------------------------------ detector-level models
@@ -212,6 +212,153 @@ def _wrapper(tree, fname, apply_name, want):
     return res, guards
 
 
+PARTS = {"characteristics": "PCharacteristics", "signal": "PSignal", "geometry": "PGeometry", "image": "PImage"}
+
+
+def _touch(tree, fname):
+    """Which parts of the detector object the body of a detector-level model reads and writes (first attribute after
+    the detector parameter; the bare object used in any other way counts as the whole detector)."""
+    fn = find_func(tree, fname)
+    det = fn.args.args[0].arg
+    parent = {}
+    for n in ast.walk(fn):
+        for ch in ast.iter_child_nodes(n):
+            parent[ch] = n
+    reads, writes = [], []
+
+    def add(lst, part):
+        if part not in lst:
+            lst.append(part)
+
+    for n in ast.walk(fn):
+        if not (isinstance(n, ast.Name) and n.id == det):
+            continue
+        if not isinstance(n.ctx, ast.Load):
+            add(writes, "PWhole")
+            continue
+        p = parent.get(n)
+        if not (isinstance(p, ast.Attribute) and p.value is n):
+            add(reads, "PWhole")
+            continue
+        part = PARTS.get(p.attr, "POtherPart")
+        top = p
+        while True:
+            q = parent.get(top)
+            if isinstance(q, (ast.Attribute, ast.Subscript)) and q.value is top:
+                top = q
+            else:
+                break
+        if isinstance(top.ctx, (ast.Store, ast.Del)):
+            add(writes, part)
+            if isinstance(parent.get(top), ast.AugAssign) or top is p:
+                add(reads, part)          # `x.image.array += ...` reads too; `detector.image = ...` replaces a part
+        else:
+            add(reads, part)
+    return f"{{| t_reads := [{'; '.join(reads)}]; t_writes := [{'; '.join(writes)}] |}}"
+
+
+# ------------------------------------------------------------------------------------------ no state between calls
+# The model treats every converter as a FUNCTION of its arguments.  This scan lists what in the source could carry
+# something from one call to the next: a name the function (or a module-level helper it calls) reads that is neither a
+# local, a builtin, an imported name, a module-level function that is called, nor a module-level name bound once to an
+# immutable literal; a `global` / `nonlocal` declaration; a module-level function used as an object (function
+# attributes); a default argument that is not an immutable literal.
+
+def _is_literal_const(node) -> bool:
+    if isinstance(node, ast.Constant):
+        return True
+    if isinstance(node, ast.UnaryOp) and isinstance(node.op, (ast.USub, ast.UAdd)):
+        return _is_literal_const(node.operand)
+    if isinstance(node, ast.BinOp):
+        return _is_literal_const(node.left) and _is_literal_const(node.right)
+    if isinstance(node, ast.Tuple):
+        return all(_is_literal_const(e) for e in node.elts)
+    return False
+
+
+def _module_state(tree, roots, label):
+    import builtins
+    mod_funcs = {n.name: n for n in tree.body if isinstance(n, (ast.FunctionDef, ast.AsyncFunctionDef))}
+    imported = set()
+    for n in ast.walk(tree):
+        if isinstance(n, ast.Import):
+            imported |= {(a.asname or a.name).split(".")[0] for a in n.names}
+        elif isinstance(n, ast.ImportFrom):
+            imported |= {a.asname or a.name for a in n.names}
+    bound = {}
+    for n in tree.body:
+        tg = (n.targets if isinstance(n, ast.Assign) else [n.target] if isinstance(n, (ast.AnnAssign, ast.AugAssign)) else [])
+        for t in tg:
+            for m in ast.walk(t):
+                if isinstance(m, ast.Name):
+                    bound.setdefault(m.id, []).append(getattr(n, "value", None) if not isinstance(n, ast.AugAssign) else None)
+    def harmless(v):
+        return _is_literal_const(v) or (isinstance(v, ast.Call) and ast.unparse(v.func) in ("logging.getLogger", "getLogger"))
+
+    consts = {k for k, vs in bound.items() if len(vs) == 1 and vs[0] is not None and harmless(vs[0])}
+    flagged, seen, todo = [], set(), [r for r in roots]
+    while todo:
+        f = todo.pop(0)
+        if f in seen:
+            continue
+        seen.add(f)
+        if f not in mod_funcs:
+            fail(None, f"{label}: function {f} not found")
+        fn = mod_funcs[f]
+        parent = {}
+        for n in ast.walk(fn):
+            for ch in ast.iter_child_nodes(n):
+                parent[ch] = n
+        declared = set()
+        for n in ast.walk(fn):
+            if isinstance(n, (ast.Global, ast.Nonlocal)):
+                declared |= set(n.names)
+        local = {a.arg for n in ast.walk(fn) if isinstance(n, ast.arguments)
+                 for a in n.args + n.posonlyargs + n.kwonlyargs + ([n.vararg] if n.vararg else []) + ([n.kwarg] if n.kwarg else [])}
+        local |= {n.id for n in ast.walk(fn) if isinstance(n, ast.Name) and isinstance(n.ctx, (ast.Store, ast.Del))}
+        local |= {n.name for n in ast.walk(fn) if isinstance(n, (ast.FunctionDef, ast.AsyncFunctionDef, ast.ClassDef)) and n is not fn}
+        local |= {n.name for n in ast.walk(fn) if isinstance(n, ast.ExceptHandler) and n.name}
+        for n in ast.walk(fn):
+            if isinstance(n, (ast.Import, ast.ImportFrom)):
+                local |= {(a.asname or a.name).split(".")[0] for a in n.names}
+        local -= declared
+        for g in sorted(declared):
+            flagged.append(f"{label}:{f}:global {g}")
+        for d in list(fn.args.defaults) + [d for d in fn.args.kw_defaults if d is not None]:
+            if not _is_literal_const(d):
+                flagged.append(f"{label}:{f}:default {ast.unparse(d)[:40]}")
+        for n in ast.walk(fn):
+            if not (isinstance(n, ast.Name) and isinstance(n.ctx, ast.Load)) or n.id in local:
+                continue
+            if n.id in mod_funcs:
+                p = parent.get(n)
+                if isinstance(p, ast.Call) and p.func is n:
+                    todo.append(n.id)
+                else:
+                    flagged.append(f"{label}:{f}:{n.id} used as an object")
+                continue
+            if hasattr(builtins, n.id) or n.id in imported or n.id in consts:
+                continue
+            flagged.append(f"{label}:{f}:{n.id}")
+    out = []
+    for x in flagged:
+        if x not in out:
+            out.append(x)
+    return out
+
+
+def module_state(repo: Path) -> str:
+    base = "pyxel/models/readout_electronics/"
+    fl = []
+    fl += _module_state(parse(repo, base + "simple_adc.py"), ["simple_adc", "apply_simple_adc"], "simple_adc.py")
+    fl += _module_state(parse(repo, base + "sar_adc.py"), ["sar_adc", "apply_sar_adc"], "sar_adc.py")
+    fl += _module_state(parse(repo, base + "sar_adc_with_noise.py"), ["sar_adc_with_noise", "apply_sar_adc_with_noise"],
+                        "sar_adc_with_noise.py")
+    fl += _module_state(parse(repo, "pyxel/util/misc.py"), ["get_dtype"], "misc.py")
+    items = "; ".join('"' + "".join(c if 32 <= ord(c) < 127 and c != '"' else "?" for c in x) + '"%string' for x in fl)
+    return f"Definition src_module_state : list string := [{items}].\n"
+
+
 def _b(x):
     return "true" if x else "false"
 
@@ -232,7 +379,11 @@ def wrappers(repo: Path) -> str:
                     ["signal_2d", "num_rows", "num_cols", "min_volt", "max_volt", "adc_bits"])
     c, g = _wrapper(parse(repo, base + "sar_adc_with_noise.py"), "sar_adc_with_noise", "apply_sar_adc_with_noise",
                     ["signal_2d", "num_rows", "num_cols", "strengths", "noises", "max_volt", "adc_bits"])
-    return (
+    touches = (
+        f"Definition src_simple_touch : touch := {_touch(parse(repo, base + 'simple_adc.py'), 'simple_adc')}.\n"
+        f"Definition src_sar_touch : touch := {_touch(parse(repo, base + 'sar_adc.py'), 'sar_adc')}.\n"
+        f"Definition src_sar0_touch : touch := {_touch(parse(repo, base + 'sar_adc_with_noise.py'), 'sar_adc_with_noise')}.\n")
+    return touches + (
         f"Definition src_simple_wiring : simple_wiring := {{| sw_signal := {_s(a['signal'])}; sw_bits := {_s(a['bit_resolution'])}; "
         f"sw_vmin := {_s(a['voltage_min'])}; sw_vmax := {_s(a['voltage_max'])}; sw_dtype := {_dt(a['dtype'])}; "
         f"sw_store_image := true |}}.\n"
@@ -248,7 +399,7 @@ def wrappers(repo: Path) -> str:
 # the last accepted shape; used only to keep a model available for the failing-input search when
 # the translation itself fails (the failed translation is already a broken obligation)
 FALLBACK = (HEADER +
-            "From Coq Require Import ZArith List.\nFrom PyxelV Require Import Model.Adc.\n"
+            "From Coq Require Import ZArith List String.\nFrom PyxelV Require Import Model.Adc Model.AdcHist.\n"
             "Import ListNotations.\nOpen Scope Z_scope.\n"
             "Definition src_dtype_chain : dtype_chain := [(1, 8, 8); (9, 16, 16); (17, 32, 32); (33, 64, 64)].\n"
             "Definition src_simple_wiring : simple_wiring := {| sw_signal := FromSignal; sw_bits := FromBits; "
@@ -259,4 +410,8 @@ FALLBACK = (HEADER +
             "rw_store_image := true |}.\n"
             "Definition src_sar0_wiring : sar0_wiring := {| nw_signal := FromSignal; nw_rows := FromRows; "
             "nw_cols := FromCols; nw_strengths := FromStrengths; nw_noises := FromNoises; nw_vmax := FromRangeHi; "
-            "nw_bits := FromBits; nw_guard_strengths := true; nw_guard_noises := true; nw_store_image := true |}.\n")
+            "nw_bits := FromBits; nw_guard_strengths := true; nw_guard_noises := true; nw_store_image := true |}.\n"
+            "Definition src_module_state : list string := [].\n"
+            "Definition src_simple_touch : touch := {| t_reads := [PCharacteristics; PSignal]; t_writes := [PImage] |}.\n"
+            "Definition src_sar_touch : touch := {| t_reads := [PCharacteristics; PSignal; PGeometry]; t_writes := [PImage] |}.\n"
+            "Definition src_sar0_touch : touch := {| t_reads := [PCharacteristics; PSignal; PGeometry]; t_writes := [PImage] |}.\n")
